@@ -539,6 +539,8 @@ def build_inputs(ctx, n_fuzz):
     inputs = [(lab, txt) for lab, txt, _ in load_corpus()]
     # seed-independent: every `$`-keyword, in six forms, in every expression position
     inputs += gen_fuzz.keyword_position_cases()
+    # seed-independent: diagnostics whose notes point into an imported file or the prelude
+    inputs += gen_fuzz.cross_file_cases()
     n_corpus = len(inputs)
     seen = set()
     while len(inputs) < n_fuzz + n_corpus:
